@@ -64,7 +64,7 @@ OUT = Path(os.environ.get("VERIF_OUT") or VERIF)      # development: redirect ev
 
 def write_replay(prop: str, payload: dict) -> Path:
     d = OUT / "replays"
-    d.mkdir(exist_ok=True)
+    d.mkdir(parents=True, exist_ok=True)
     p = d / f"{prop}-{SEED}.json"
     p.write_text(json.dumps(jsonable(payload), indent=1))
     return p
@@ -216,7 +216,7 @@ def main() -> int:
         "wall_s": round(time.time() - t0, 2),
         "violations": nviol,
     }
-    (OUT / "evidence").mkdir(exist_ok=True)
+    (OUT / "evidence").mkdir(parents=True, exist_ok=True)
     (OUT / "evidence" / f"{prop}.json").write_text(json.dumps(jsonable(ev), indent=1))
     if exit_code == 0:
         print(f"{prop} {args.tier}: held — {proof['discharged']}/{proof['obligations']} theorems, "
